@@ -76,6 +76,19 @@ def gen_tps(rng, prog, entries, nosource=()):
                          method=method, scripted=rng.random() < 0.25))
 
     n = rng.randint(3, 9)
+    # a line tracepoint on a line that STARTS a scope and runs inside it (one-line def, lambda body on its own
+    # line), as the ONLY tracepoint of that file in a third of the programs (nothing else keeps the scope in view)
+    only = {}
+    if rng.random() < 0.33:
+        ol = [(f, fn) for f, fn in ex_calls if fn in ('one', '<lambda>')]
+        cand = ol if ol and rng.random() < 0.8 else [(m + '.py', rng.choice(['one', '<lambda>'])) for m in mods]
+        f, fn = rng.choice(cand)
+        m = f[:-3]
+        if m in meta['lines']:
+            ln = meta['lines'][m]['oneline'][fn]
+            for _ in range(rng.choice([1, 1, 2])):
+                tps.append(mk_tp(rng, len(tps), f, ln, rng.choice(KINDS), rng.choice(['resp', 'custom'])))
+            only[f] = ln
     for rel in nosource:
         # unmatchable tracepoints (span=method, no method_name) on the source-less file, through both routes and at
         # both ends of the configuration, next to the ordinary ones
@@ -84,18 +97,24 @@ def gen_tps(rng, prog, entries, nosource=()):
             tp['args']['span'] = 'method'
             tp['unmatchable'] = True
             tps.append(tp)
-    while len(tps) < n:
+    guard = 0
+    while len(tps) < n and guard < 60:
+        guard += 1
         m = rng.choice(mods)
         info = meta['lines'][m]
         path = m + '.py'
+        if path in only:
+            continue
         r = rng.random()
         if r < 0.20 and ex_lines:
-            f, l = rng.choice(ex_lines)
+            f, l = rng.choice([x for x in ex_lines if x[0] not in only] or [(path, 2)])
             add(f, l)
         elif r < 0.30:
             add(path, rng.choice(info['stmt']))
         elif r < 0.45:                       # several on one line, through both routes
             f, ln = rng.choice(ex_lines) if ex_lines and rng.random() < 0.7 else (path, rng.choice(info['stmt']))
+            if f in only:
+                continue
             for _ in range(rng.randint(2, 3)):
                 add(f, ln)
         elif r < 0.55:                       # def line vs first body line
@@ -105,11 +124,13 @@ def gen_tps(rng, prog, entries, nosource=()):
         elif r < 0.63:
             add(path, rng.choice(info['dead'] + [info['nlines'] + 5, 2]))
         elif r < 0.70:
-            add(rng.choice(['zz.py', 'M0.py', m]), rng.choice(info['stmt']))
+            add(rng.choice(['zz.py', 'M0.py', m + '.pyc']), rng.choice(info['stmt']))
         elif r < 0.90:
             f = rng.choice(sorted(info['def']))
             if ex_calls and rng.random() < 0.6:
                 path, f = rng.choice(ex_calls)
+            if path in only:
+                continue
             add(path, 0, method=f)
             if rng.random() < 0.3:
                 add(path, 0, method=f)
@@ -186,6 +207,26 @@ def corpus():
                  {'id': 'tp3', 'path': 'm0.py', 'line': 2, 'args': u, 'metrics': [], 'via': 'custom'},
                  {'id': 'tp4', 'path': 'm0.py', 'line': 0, 'args': dict(u, method_name='f', snapshot='no_collect',
                                                                      log_msg='in f'), 'metrics': [], 'via': 'custom'}]},
+        # scopes that start and run on one line: a one-line def and a lambda body on its own line, each the only
+        # tracepoint of its file
+        {'kind': 'prog', 'mode': 'sys', 'scripts': {}, 'sched': [], 'model_seed': 5, 'entries': [['m0', 'g', 1]],
+         'files': {'m0.py': ('def g(x, k):\n'
+                             '    a = m1.one(x, next(_TL.ctr))\n'
+                             '    b = LAM(a, next(_TL.ctr)) + LAM(x, next(_TL.ctr))\n'
+                             '    return a + b\n'
+                             '\n'
+                             '\n'
+                             'LAM = (\n'
+                             '    lambda n, k: n + 100\n'           # line 8
+                             ')\n'),
+                   'm1.py': ('def helper(n, k):\n'
+                             '    return n + 1\n'
+                             '\n'
+                             '\n'
+                             'def one(n, k): return helper(n, next(_TL.ctr)) * 2\n')},      # line 5
+         'tps': [{'id': 'tp0', 'path': 'm0.py', 'line': 8, 'args': dict(u, snapshot='no_collect', log_msg='lam'),
+                  'metrics': [], 'via': 'resp'},
+                 {'id': 'tp1', 'path': 'm1.py', 'line': 5, 'args': u, 'metrics': [], 'via': 'custom'}]},
         # no tracepoint at all; and only never-reached ones
         {'kind': 'prog', 'mode': 'sys', 'files': {'m0.py': src}, 'entries': [['m0', 'g', 1]], 'scripts': {},
          'sched': [], 'model_seed': 2, 'tps': []},
